@@ -327,7 +327,9 @@ func (sc *Scheduler) Status(g *ExecutionGraph) Status {
 	if !g.IsStarted() {
 		return StatusNone
 	}
-	if g.IsRunning() {
+	if g.IsRunning() || !sc.isFinished(g) {
+		// Steps that have not started yet mean that the run is still in
+		// progress, even if no step happens to be running at this instant.
 		return StatusRunning
 	}
 	if sc.isError() {
